@@ -6,12 +6,15 @@ import numpy as np
 
 from common import R, Rvec, Cx, fl, cfl, ModelError
 
-from common import wiring_pre_build as pre_build  # noqa: E402,F401
+from common import all_pre_build as pre_build  # noqa: E402,F401  (wiring + hc + fncalls translators)
 
 LEAN_MODULES = ["PyomaVerif.Props.C07", "PyomaVerif.Props.C07Bell", "PyomaVerif.Mutants.C07", "PyomaVerif.Props.WiringMpe", "PyomaVerif.Props.C07All", "PyomaVerif.Props.WiringCalls", "PyomaVerif.Props.C07Rect"]
+LEAN_MODULES = ["PyomaVerif.Props.C07", "PyomaVerif.Props.C07Bell", "PyomaVerif.Mutants.C07", "PyomaVerif.Props.WiringMpe", "PyomaVerif.Props.C07All", "PyomaVerif.Props.WiringCalls", "PyomaVerif.Props.WiringFn"]
 THEOREMS = [
     # the exact sequence of core-routine calls of the run()/mpe() body and the exact set of parameters bound at each (regenerated call table)
     "PV.WiringCalls.C06_mpe_calls",
+    # the calls INSIDE fdd.EFDD_mpe (SD_svalsvec, FDD_mpe with DF1, SDOF_bellandMS with DF2), regenerated (translate_fncalls.py)
+    "PV.WiringFn.C07_efdd_inner_calls",
     # call-site wiring of the class layer, regenerated from /repo on every run (translate_wiring.py)
     "PV.WiringMpe.C07_efdd_mpe_wiring",
     "PV.C07.C07_normCorr_scale",
